@@ -87,7 +87,7 @@ type Rec struct {
 	nextSample int64
 	sampleStep int64
 	// Progress is bumped on every Case; a watchdog in the worker reads it.
-	Progress atomic.Int64           `json:"-"`
+	Progress atomic.Int64             `json:"-"`
 	Journal  func(kind string, c any) `json:"-"`
 }
 
@@ -410,4 +410,28 @@ func ReplayOf[T any](name string, check func(c *T, r *Rec)) Kind {
 		r.Try(func() { check(&c, r) })
 		return nil
 	}}
+}
+
+// Bulk adds counts produced by an external harness process.
+func (r *Rec) Bulk(evals, nontrivial int64) {
+	r.Evals += evals
+	r.Nontrivial += nontrivial
+	r.Progress.Add(1)
+}
+
+// FailRaw records a violation whose case is already serialised.
+func (r *Rec) FailRaw(kind, sig, msg string, raw json.RawMessage) {
+	if v := r.Viol[sig]; v != nil {
+		v.Count++
+		return
+	}
+	r.Viol[sig] = &Violation{Property: r.Property, Kind: kind, Sig: sig, Msg: msg, Case: raw, Count: 1, Order: r.Evals}
+}
+
+// AddSample appends an already serialised sample case.
+func (r *Rec) AddSample(kind string, raw json.RawMessage) {
+	if len(r.Samples) < 6 {
+		b, _ := json.Marshal(map[string]any{"kind": kind, "case": raw})
+		r.Samples = append(r.Samples, b)
+	}
 }
